@@ -1,28 +1,43 @@
 (* C04 - NGAP decode inverts encode; canonical encodings are accepted and re-encoded identically.
-   Statements only.
+   Statements only; proofs in Proofs/AperRound*.v (reader at bit level, primitive readers, structural induction) on top of
+   Proofs/AperBits*.v and Proofs/AperStruct*.v (C03).
 
-   What is proved for all inputs here is the part C04 shares with C03 and C14: the partition of the NGAP schema into
-   supported constraint classes + the listed instances, and - for the decoder - that every primitive reader keeps the
-   cursor invariant (so decoding of an encoding never leaves the buffer).  The round trip itself is
+   Main statements (for every Go type t, tag parameters p; "supported" = the decidable, value-directed side conditions
+   sup (on the Go value, Proofs/AperStructDefs.v) and supa (on the abstract value, Proofs/AperRoundDefs.v)):
+
+     c04_accepts_canonical :  tags_to_asn1 t p = Some at -> supa t p av = true -> x691 at av 0 = XOk bits -> small bits ->
+                              exists v', unmarshal (dec_fuel t) t p (pack bits) = Ok v' /\ abs t p v' = Some av
+                                         /\ marshal t p v' = Ok (pack bits)
+       every canonical X.691 encoding (of an abstract value within the supported classes, unfragmented) is accepted,
+       decoded to a Go value that denotes the abstract value it encodes, and re-encoded to exactly the same bytes;
+
+     c04_roundtrip : ... abs t p v = Some av -> sup t p v = true -> ... ->
+                     exists bs v', marshal t p v = Ok bs /\ unmarshal (dec_fuel t) t p bs = Ok v' /\
+                                   abs t p v' = abs t p v /\ marshal t p v' = Ok bs
+       decoding the encoding of v yields a value v' denoting the same abstract value as v, and re-encoding v' reproduces
+       the bytes.
+
+   Why "abs t p v' = abs t p v" and not "v' = norm v": the decoder slices BIT STRING contents out of the input without
+   clearing the unused low bits of the last octet (they hold the next field's bits), so the decoded Go value depends on
+   what follows it in the buffer and is not a function of v.  abs (Spec/Asn1Tags.v) reads a Go value as an ASN.1 value
+   and forgets exactly what the codec does not carry: those unused bits and the non-selected alternatives of a CHOICE
+   (the decoder zeroes them).  Equality of abs is equality "in every field" of the ASN.1 value.
 
    TODO-PARTIAL (stated in full):
-     aper_roundtrip :
-       forall t p v bs, supported t p -> conforms t p v -> nofrag t p v ->
-         marshal t p v = Ok bs -> unmarshal (dec_fuel t) t p bs = Ok (norm v)
-     aper_accepts_canonical :
-       forall t p v at av bits, tags_to_asn1 t p = Some at -> abs t p v = Some av -> supported t p ->
-         x691 at av 0 = XOk bits ->
-         unmarshal (dec_fuel t) t p (pack bits) = Ok (norm v) /\ marshal t p (norm v) = Ok (pack bits)
-     where norm masks the unused bits of a BIT STRING's last octet and identifies nil with empty slices.
-     Missing: the bit-level characterisation of GetBitString / putBitString (see Properties/C03.v) from which the
-     position-indexed primitive round trips dec p (enc v p ++ rest) = (v, p + |enc|, rest) follow (proved at bit level
-     for the constrained whole number in the design round), and the induction over ty.
+     aper_roundtrip_norm : unmarshal (dec_fuel t) t p bs = Ok (norm v)  for a normalisation norm : val -> val.
+       Not provable as stated (see above: v' is not a function of v); what is proved instead is abs t p v' = abs t p v.
+       The derivation of supa t p av from sup t p v and abs t p v = Some av (they state the same class conditions on
+       the two sides, supa adding the non-emptiness of components) is not done: both are hypotheses of c04_roundtrip.
+     Classes excluded by sup / supa are those listed in Properties/C03.v plus, for decoding, a component that occupies
+     zero bits at the very end of the buffer (the library answers "sequence truncated": supa asks every component
+     reached to be of a statically non-empty type, ne_f) and CHOICE types with OPTIONAL-tagged alternatives.
    On every check the streams prim-dec, ngap-rt and ngap-canon establish, for thousands of constraint/value pairs and
    for values of every NGAP message type: Go decode(Go encode v) = v, re-encoding = encoding, Go decode (independent
    reference encoding) = v, model decoder = Go decoder, and Coq X.691 specification = independent reference encoding. *)
 From Coq Require Import NArith ZArith List Bool String.
 Require Import GoSlice Bits AperCommon AperEnc AperDec Asn1 X691 Asn1Tags NgapSchema NgapGolden AperCheck X691Check
-        AperSchemaProofs AperDecProofs.
+        AperSchemaProofs AperDecProofs AperBits AperBitsGet AperBitsPut AperStructDefs AperStructMain
+        AperRoundGet AperRoundPrim AperRoundLeaf AperRoundStr AperRoundBits AperRoundDefs AperRoundNe AperRoundMain AperRoundTop.
 Import ListNotations.
 Open Scope N_scope.
 
@@ -42,6 +57,96 @@ Theorem c04_getBitsValue_keeps_cursor :
   forall s n, dinv s -> quiet (fst (getBitsValue s n)) /\ dinv (snd (getBitsValue s n)) /\ d_bytes (snd (getBitsValue s n)) = d_bytes s.
 Proof. exact getBitsValue_good. Qed.
 Print Assumptions c04_getBitsValue_keeps_cursor.
+
+(* ---- the reader at bit level: [at_pos d bs pos] = the cursor of d over the buffer bs stands at bit pos;
+   [bits_at bs pos b] = the buffer continues at bit pos with the bits b *)
+Theorem c04_getBitsValue_reads_bits :
+  forall d bs pos n, at_pos d bs pos -> buf bs -> 1 <= n <= 64 -> (pos + N.to_nat n <= 8 * List.length bs)%nat ->
+    exists d', getBitsValue d n = (Ok (N_of_bits (firstn (N.to_nat n) (skipn pos (bits_of_bytes bs)))), d')
+               /\ at_pos d' bs (pos + N.to_nat n).
+Proof. exact getBitsValue_at. Qed.
+Print Assumptions c04_getBitsValue_reads_bits.
+
+(* ---- primitive round trips, position-indexed: if the buffer continues at the cursor with the X.691 bits of a value,
+   the reader returns the value and advances by exactly those bits *)
+Theorem c04_constrained_whole_number_roundtrip :
+  forall d bs pos range v b, at_pos d bs pos -> buf bs -> 2 <= range <= 65536 -> v < range -> cwn range v pos = XOk b -> bits_at bs pos b ->
+    dec_ok (parseConstraintValue d (Z.of_N range)) bs (pos + List.length b) v.
+Proof. exact rd_cwn. Qed.
+Print Assumptions c04_constrained_whole_number_roundtrip.
+
+Theorem c04_length_determinant_roundtrip :
+  forall d bs pos n b, at_pos d bs pos -> buf bs -> n < 16384 -> lendet n pos = XOk b -> bits_at bs pos b ->
+    dec_ok (parseLength d (-1)) bs (pos + List.length b) (n, false).
+Proof. exact rd_lendet. Qed.
+Print Assumptions c04_length_determinant_roundtrip.
+
+Theorem c04_integer_roundtrip :
+  forall d bs pos lb ub z e,
+    at_pos d bs pos -> buf bs -> (lb <= z <= ub)%Z -> (- 4611686018427387904 < lb)%Z -> (ub < 4611686018427387904)%Z ->
+    ((ub - lb + 1 <= 65536)%Z \/ (lb = 0 /\ 65536 <= ub)%Z) ->
+    cwn (Z.to_N (ub - lb + 1)) (Z.to_N (z - lb)) pos = XOk e -> bits_at bs pos e ->
+    dec_ok (parseInteger d false (Some lb) (Some ub)) bs (pos + List.length e) z.
+Proof. exact rd_int. Qed.
+Print Assumptions c04_integer_roundtrip.
+
+Theorem c04_octet_string_roundtrip :
+  forall d bs pos lb ub bytes b,
+    at_pos d bs pos -> buf bs -> bok bytes -> (0 <= lb <= ub)%Z -> (0 < ub < 65536)%Z ->
+    Z.to_N lb <= len bytes <= Z.to_N ub ->
+    enc_string (Z.to_N lb) (Some (Z.to_N ub)) false (len bytes) (bits_of_bytes bytes) (Z.to_N ub <=? 2) pos = XOk b ->
+    bits_at bs pos b ->
+    dec_ok (parseOctetString d false (Some lb) (Some ub)) bs (pos + List.length b) bytes.
+Proof. exact rd_octets_constrained. Qed.
+Print Assumptions c04_octet_string_roundtrip.
+
+(* BIT STRING: the octets returned are determined on their first BitLength bits *)
+Theorem c04_bit_string_roundtrip :
+  forall d bs pos lb ub c b,
+    at_pos d bs pos -> buf bs -> (0 <= lb <= ub)%Z -> (0 < ub < 65536)%Z ->
+    Z.to_N lb <= N.of_nat (List.length c) <= Z.to_N ub ->
+    enc_string (Z.to_N lb) (Some (Z.to_N ub)) false (N.of_nat (List.length c)) c (Z.to_N ub <=? 16) pos = XOk b ->
+    bits_at bs pos b ->
+    exists r, dec_ok (parseBitString d false (Some lb) (Some ub)) bs (pos + List.length b) r /\ bits_val r c.
+Proof. exact rd_bitstring_constrained. Qed.
+Print Assumptions c04_bit_string_roundtrip.
+
+(* ---- whole values *)
+Theorem c04_decode_canonical :
+  forall t p at' av bits,
+    tags_to_asn1 t p = Some at' -> supa t p av = true -> x691 at' av 0 = XOk bits -> small bits ->
+    exists v', unmarshal (dec_fuel t) t p (pack bits) = Ok v' /\ abs t p v' = Some av /\ sup t p v' = true.
+Proof. exact unmarshal_canonical. Qed.
+Print Assumptions c04_decode_canonical.
+
+Theorem c04_accepts_canonical :
+  forall t p at' av bits,
+    tags_to_asn1 t p = Some at' -> supa t p av = true -> x691 at' av 0 = XOk bits -> small bits ->
+    exists v', unmarshal (dec_fuel t) t p (pack bits) = Ok v' /\ abs t p v' = Some av /\ marshal t p v' = Ok (pack bits).
+Proof. exact accepts_canonical. Qed.
+Print Assumptions c04_accepts_canonical.
+
+Theorem c04_roundtrip :
+  forall t p v at' av bits,
+    tags_to_asn1 t p = Some at' -> abs t p v = Some av -> sup t p v = true -> supa t p av = true ->
+    x691 at' av 0 = XOk bits -> small bits ->
+    exists bs v', marshal t p v = Ok bs /\ unmarshal (dec_fuel t) t p bs = Ok v' /\ abs t p v' = abs t p v /\ marshal t p v' = Ok bs.
+Proof. exact roundtrip. Qed.
+Print Assumptions c04_roundtrip.
+
+(* for the NGAP PDU and the transfer / container roots (encoding and decoding calls use the same parameters) *)
+Theorem c04_ngap_roundtrip :
+  forall name t pe pd v at' av bits,
+    In (name, t, pe, pd) ngap_roots_full -> tags_to_asn1 t pe = Some at' -> abs t pe v = Some av -> sup t pe v = true -> supa t pe av = true ->
+    x691 at' av 0 = XOk bits -> small bits ->
+    exists bs v', marshal t pe v = Ok bs /\ unmarshal (dec_fuel t) t pe bs = Ok v' /\ abs t pe v' = abs t pe v /\ marshal t pe v' = Ok bs.
+Proof. intros name t pe pd v at' av bits _. apply roundtrip. Qed.
+Print Assumptions c04_ngap_roundtrip.
+
+Theorem c04_ngap_root_params_agree :
+  forallb (fun r => let '(n, t, pe, pd) := r in AperSchemaProofs.params_eqb pe pd) ngap_roots_full = true.
+Proof. vm_compute. reflexivity. Qed.
+Print Assumptions c04_ngap_root_params_agree.
 
 (* non-vacuity / instances: an NGSetupRequest value: model decoder inverts model encoder, the bytes are the ones the
    implementation produced, and they are the canonical X.691 encoding under the frozen TS 38.413 types *)
@@ -77,3 +182,12 @@ Definition rt_at (pre : nat) (x : ty * params * val) : bool :=
 Example c04_primitive_roundtrips_table :
   forallb (fun pre => forallb (rt_at pre) rt_shapes) (seq 0 8) = true.
 Proof. vm_compute. reflexivity. Qed.
+
+(* the hypotheses of c04_roundtrip hold for the NGSetupRequest above *)
+Example c04_structural_hypotheses_met :
+  sup (root_ty "NGAPPDU") (root_penc "NGAPPDU") ex_ngsetup = true /\
+  match abs (root_ty "NGAPPDU") (root_penc "NGAPPDU") ex_ngsetup with
+  | Some av => supa (root_ty "NGAPPDU") (root_penc "NGAPPDU") av
+  | None => false
+  end = true.
+Proof. split; vm_compute; reflexivity. Qed.
